@@ -25,7 +25,7 @@ RULE = ('one workbook per generated table (key column of height 1-8, width 1-4, 
         'distinct = distinct (table, formula) or (function, row, column)')
 ASSUMPTIONS = ['approximate matching only on ascending numeric keys; every text key has one fixed spelling (mixed case), so equality never depends on case folding',
                'lookup values 0 and "" are not used when the key column contains blanks',
-               'INDEX with a 0 index, multi-area INDEX, the descending binary XMATCH mode (-2) and VLOOKUP column 0 / > width are not asserted']
+               'INDEX with a 0 index (asserted only where the other index lies outside the area: #REF!), multi-area INDEX, the descending binary XMATCH mode (-2) and VLOOKUP column 0 / > width are not asserted']
 
 COLS = 'ABCDEFG'
 
@@ -86,7 +86,7 @@ def _queries(spec, table, cells, qs):
     h = len(keys)
     tab = f'A1:{COLS[width - 1]}{h}'
     keyrng = f'A1:A{h}'
-    ascending = spec['kind'] == 'ascending'
+    ascending = spec['kind'] == 'ascending' or (spec['kind'] == 'close' and keys == sorted(keys))
     has_blank = any(k is None for k in keys)
     hrow = [0]
 
@@ -171,6 +171,17 @@ def _queries(spec, table, cells, qs):
                 border = r in (1, h, -1, h + 1) or c in (1, width, -1, width + 1)
                 qs.append(Q(f'=INDEX({tab},{r},{c})', exp, 'INDEX:' + ('inside' if inside else 'neg' if (r < 0 or c < 0) else 'beyond'),
                             border, ['fn:INDEX', 'inside' if inside else 'outside']))
+        # computed positions arrive as floats (6/2): the same element
+        for r in range(1, h + 1):
+            for c in range(1, width + 1):
+                if (r + c) % 2 == 0:
+                    exp = table[r - 1][c - 1]
+                    qs.append(Q(f'=INDEX({tab},{2 * r}/2,{3 * c}/3)', F.BLANK if exp is None else exp, 'INDEX:computed-position', True, ['fn:INDEX', 'computed-position']))
+        # a row outside the area is outside it whatever the column argument says (0 = the whole row)
+        for r in (h + 1, h + 2):
+            qs.append(Q(f'=INDEX({tab},{r},0)', REF, 'INDEX:beyond-with-zero', True, ['fn:INDEX', 'outside', 'zero-index']))
+        for c in (width + 1, width + 2):
+            qs.append(Q(f'=INDEX({tab},0,{c})', REF, 'INDEX:beyond-with-zero', True, ['fn:INDEX', 'outside', 'zero-index']))
         # one-index form on vectors
         if width >= 2:
             for c in range(1, width + 1):
@@ -306,9 +317,17 @@ def strategy():
 
     @st.composite
     def spec(draw):
-        kind = draw(st.sampled_from(['ascending', 'ascending', 'ascending', 'unsorted', 'text', 'blanks']))
+        kind = draw(st.sampled_from(['ascending', 'ascending', 'ascending', 'unsorted', 'text', 'blanks', 'close']))
         h = draw(st.integers(1, 8))
-        if kind == 'ascending':
+        if kind == 'close':
+            # numbers that differ, but only just (tiny magnitudes, 13-digit neighbours): equal means equal, not "close"
+            pool = draw(st.sampled_from([[1e-13, 2e-13, 3e-13, -2e-13, 0, 5e-13, -1e-13],
+                                         [1234567890123, 1234567890124, 1234567890125, 1234567890126, 1234567890124.5],
+                                         [0.1, 0.1000000000001, 0.1000000000002, 0.0999999999999, 0.1000000000003]]))
+            keys = draw(st.lists(st.sampled_from(pool), min_size=h, max_size=h))
+            if draw(st.booleans()):
+                keys = sorted(keys)
+        elif kind == 'ascending':
             base = sorted(draw(st.lists(st.one_of(st.integers(-5, 40), st.integers(0, 80).map(lambda k: k / 2)), min_size=h, max_size=h)))
             if h >= 2 and draw(st.integers(0, 2)) == 0:
                 # a run of equal keys (approximate matching answers with the last row of the run)
@@ -335,6 +354,8 @@ def strategy():
             opts = []
             if present:
                 opts += [st.sampled_from(present)] * 3
+            if kind == 'close':
+                return draw(st.one_of(opts + [st.sampled_from(pool)] * 3))
             if nums:
                 lo, hi = min(nums), max(nums)
                 opts += [st.just(lo - 1), st.just(hi + 1), st.just(hi + 0.5), st.sampled_from(nums).map(lambda x: x + 0.25),
